@@ -245,7 +245,7 @@ func (c *c19) sliceHas(v ssa.Value, want ssa.Value) bool {
 // C19.defrag
 
 func (c *c19) ruleDefrag() {
-	ru := c.r.Rule("C19.defrag", "packet(): the IPv4 layer goes through the decoder's defragmenter before any TCP layer is looked up; a datagram counts as reassembled when the defragmenter's result differs in Length from the fragment handed in; it is then serialised (payload, then header with fixed lengths/checksums), recorded with src/dst and re-decoded into the packet; every packet with a TCP layer (and only those) goes to the decoder's assembler with the packet's network flow", 18)
+	ru := c.r.Rule("C19.defrag", "packet(): the IPv4 layer goes through the decoder's defragmenter before any TCP layer is looked up; a datagram counts as reassembled exactly when the defragmenter's result is another layer than the fragment handed in (identity, not the Length fields: payload length and total length coincide when the other fragments carry 20 bytes); it is then serialised (payload, then header with fixed lengths/checksums), recorded with src/dst and re-decoded into the packet; every packet with a TCP layer (and only those) goes to the decoder's assembler with the packet's network flow", 18)
 	fn := getFn(ru, c.p, "(*"+c19FD+".Decoder).packet")
 	tdec := c.p.NamedType(c19FD, "Decoder")
 	trec := c.p.NamedType(c19FD, "IPV4Reassembled")
@@ -347,7 +347,12 @@ func (c *c19) ruleDefrag() {
 		name string
 		ins  ssa.Instruction
 	}{{"record", rec}, {"redecode", dec[0]}} {
-		lenCmp := false
+		lenCmp, ptrCmp := false, false
+		// the defragmenter hands back its argument itself for a datagram that needs no reassembly and a new
+		// layer for a completed one: identity is the exact test
+		isSame := func(bo *ssa.BinOp) bool {
+			return (c19strip(bo.X) == c19strip(newIP) && c19strip(bo.Y) == c19strip(ip4)) || (c19strip(bo.Y) == c19strip(newIP) && c19strip(bo.X) == c19strip(ip4))
+		}
 		for _, cd := range c19condsAt(site.ins.Block()) {
 			bo, ok := cd.v.(*ssa.BinOp)
 			if !ok {
@@ -357,6 +362,9 @@ func (c *c19) ruleDefrag() {
 				if (isLen(bo.X, newIP) && isLen(bo.Y, ip4)) || (isLen(bo.Y, newIP) && isLen(bo.X, ip4)) {
 					lenCmp = true
 				}
+				if isSame(bo) {
+					ptrCmp = true
+				}
 			}
 		}
 		allowed := map[ssa.Value]bool{ssa.Value(l4[0]): true, newIP: true}
@@ -364,11 +372,11 @@ func (c *c19) ruleDefrag() {
 			allowed[dfErr] = true
 		}
 		extra := c.otherConds(site.ins.Block(), allowed, func(bo *ssa.BinOp) bool {
-			return (isLen(bo.X, newIP) && isLen(bo.Y, ip4)) || (isLen(bo.Y, newIP) && isLen(bo.X, ip4))
+			return isSame(bo)
 		})
-		ru.Check(lenCmp, k+":complete-by-length:"+site.name, c.pos(site.ins), "guarded by defragmented.Length != fragment.Length",
-			"the reassembled datagram is used without comparing the defragmenter result's Length with the Length of the fragment handed in: completion must be read off the defragmenter's result (fragments can arrive in any order)")
-		ru.Check(extra == "", k+":complete-only-by-length:"+site.name, c.pos(site.ins), "no other condition decides completion",
+		ru.Check(ptrCmp && !lenCmp, k+":complete-by-result:"+site.name, c.pos(site.ins), "guarded by defragmented != fragment (identity of the defragmenter's result)",
+			"the reassembled datagram is not used exactly when the defragmenter's result is another layer than the fragment handed in: completion must be read off the defragmenter's result (fragments can arrive in any order), and not off the two Length fields - the result's Length is the reassembled payload, the fragment's includes its header, so they are equal whenever the other fragments carry exactly 20 bytes and the completed datagram is dropped")
+		ru.Check(extra == "", k+":complete-only-by-result:"+site.name, c.pos(site.ins), "no other condition decides completion",
 			"completion additionally depends on "+extra+": a datagram the defragmenter completed can be dropped")
 	}
 	// recorded entry
